@@ -277,11 +277,92 @@ def calibrate_body(fail):
     return body
 
 
+def optimize_body(fail):
+    """optimization.optimize with sciris' ASD and scipy's SLSQP replaced by nondeterministic stubs: whatever the search does,
+    the returned instructions respect the hard bounds and the total, and the caller's objects are untouched"""
+
+    def body(env):
+        import sciris as sc
+        import scipy
+        import atomica.optimization as ao
+        import atomica.results as ares
+        from checks import C13 as c13
+        from checks.C14 import _StubMinimize
+        from checks.relational import _numbers
+        from vsym.core import _same, merged
+
+        am, ap, au, apar, afp = mr.modules()
+        P = project("M12", 3, 0.25)
+        F = P.framework
+        t_adj = 2000.25
+        stub = _AsdStub(env, sc, evaluate=True, raise_in_eval=fail)
+        extra = shim.patches_for(ao, ares) + ([(ap.Covout, "get_outcome", merged(ap.Covout.__dict__["get_outcome"], name="Covout.get_outcome"))] if env.symbolic else [])
+        if env.symbolic:
+            extra = [p_ for p_ in extra if not (p_[0] is ao.__dict__ and p_[1] in ("sc", "scipy"))] + [(ao.__dict__, "scipy", _StubMinimize(env, 2, scipy))]
+        import pickle as _pickle
+
+        class PickleShim:
+            """optimize() unpickles a fresh model per evaluation: the mergeable heap must follow the unpickled objects"""
+
+            dumps = staticmethod(_pickle.dumps)
+
+            @staticmethod
+            def loads(b):
+                mdl = _pickle.loads(b)
+                if env.symbolic:
+                    env.heap(mr.all_vars(mdl) + [mdl])
+                return mdl
+
+        with mr.session(env, outline_pars=True), env.installed(extra), shim.Installed([(ao.__dict__, "sc", stub), (ao.__dict__, "pickle", PickleShim)]):
+            parset = copy.deepcopy(P.parsets[0])
+            mr.symbolize_parset(env, parset, F, comps=False)
+            m0 = am.Model(P.settings, F, P.parsets[0])
+            parset.initialization = mr.symbolic_state(env, m0)
+            progset, psym, outcomes = c13.make_progset(env, P, "additive", list(parset.pop_names))
+            s0 = [env.real("alloc0|%s" % n, 1.0, 1e6) for n in ("Ptest", "Ptreat")]
+            instr = ap.ProgramInstructions(start_year=2000.0, alloc={"Ptest": au.TimeSeries(t=[2000.0], vals=[s0[0]]), "Ptreat": au.TimeSeries(t=[2000.0], vals=[s0[1]])})
+            up = env.real("upper|Ptest", 1.0, 2e6)
+            env.assume(env.b(up >= s0[0]), "the initial spending respects its own upper bound")
+            adjs = [ao.SpendingAdjustment("Ptest", t_adj, "abs", 0.0, up), ao.SpendingAdjustment("Ptreat", t_adj, "rel", 0.5, 2.0)]
+            opt = ao.Optimization(name="o", adjustments=adjs, measurables=[ao.MinimizeMeasurable("lost", t=[2000.0, 2000.75])], constraints=[ao.TotalSpendConstraint()], maxiters=1)
+
+            class Proj:
+                settings = P.settings
+                framework = F
+
+            before = _numbers(parset) + _numbers(progset) + _numbers(instr)
+            sett_before = (P.settings.sim_start, P.settings.sim_end, P.settings.sim_dt)
+            raised = None
+            try:
+                new_instr = ao.optimize(Proj(), opt, parset, progset, instr)
+            except RuntimeError:
+                raised = "injected"
+            except (ao.FailedConstraint, AssertionError):
+                raised = "constraint"
+            after = _numbers(parset) + _numbers(progset) + _numbers(instr)
+            same = [p_ for p_, _ in before] == [p_ for p_, _ in after] and all((_same(a, b) if not isinstance(a, tuple) else a == b) for (_, a), (_, b) in zip(before, after))
+            env.claim("callers_objects_unchanged", env.true(bool(same)), key="optimize_caller_state")
+            env.claim("settings_unchanged", env.true(sett_before == (P.settings.sim_start, P.settings.sim_end, P.settings.sim_dt)), key="optimize_settings")
+            if raised:
+                if fail:
+                    env.claim("failure_propagates", env.true(raised == "injected"), key="failure")
+                return
+            v = [new_instr.alloc[n].get(t_adj) for n in ("Ptest", "Ptreat")]
+        env.claim("result_is_not_the_callers_object", env.true(new_instr is not instr), key="optimize_copy")
+        env.claim("adjusted_spending_within_bounds_Ptest", env.ge(v[0], 0.0) & env.le(v[0], up), key="optimize_bounds")
+        env.claim("adjusted_spending_within_bounds_Ptreat", env.ge(v[1], 0.5 * s0[1]) & env.le(v[1], 2.0 * s0[1]), key="optimize_bounds")
+        tot = s0[0] + s0[1]
+        d = v[0] + v[1] - tot
+        env.claim("total_spending_kept", env.le(d, 1e-8 + 1e-5 * tot, 0) & env.ge(d, -(1e-8 + 1e-5 * tot), 0), key="optimize_total")
+
+    return body
+
+
 def _funcs():
     import atomica.optimization as ao
     import atomica.calibration as ac
 
-    return [ao.Measurable.get_objective_val, ao.Measurable.eval, ao.AtMostMeasurable.get_objective_val, ao.AtLeastMeasurable.get_objective_val, ao.Optimization.compute_objective, ao.Optimization.get_initialization, ao.SpendingAdjustment.get_initialization, ao.Adjustable.get_hard_bounds, ac._update_parset, ac.calibrate, ac._calculate_objective]
+    return [ao.Measurable.get_objective_val, ao.Measurable.eval, ao.AtMostMeasurable.get_objective_val, ao.AtLeastMeasurable.get_objective_val, ao.Optimization.compute_objective, ao.Optimization.get_initialization, ao.SpendingAdjustment.get_initialization, ao.Adjustable.get_hard_bounds, ac._update_parset, ac.calibrate, ac._calculate_objective, ao.optimize, ao._objective_fcn, ao.Optimization.update_instructions, ao.Optimization.constrain_instructions, ao.Optimization.get_hard_constraints, ao.Optimization.get_baselines]
 
 
 def specs(tier):
@@ -291,6 +372,8 @@ def specs(tier):
     out.append(("update_parset", update_parset_body, dict(), ()))
     out.append(("calibrate_plumbing[asd stub]", calibrate_body, dict(fail=False), ()))
     out.append(("calibrate_plumbing[asd stub;failure at an evaluation]", calibrate_body, dict(fail=True), ()))
+    out.append(("optimize_plumbing[asd+slsqp stubs]", optimize_body, dict(fail=False), ("FailedConstraint", "AssertionError", "UnresolvableConstraint", "InvalidInitialConditions")))
+    out.append(("optimize_plumbing[asd+slsqp stubs;failure at an evaluation]", optimize_body, dict(fail=True), ("FailedConstraint", "AssertionError", "UnresolvableConstraint", "InvalidInitialConditions")))
     return out
 
 
@@ -300,7 +383,7 @@ def groups(tier):
         body = fac(**kw)
 
         def g(tier_, seed, _b=body, _nm=nm, _kw=kw, _exc=exc):
-            return run_body(_b, _nm, tier_, seed, functions=_funcs(), bounds=dict(_kw, model="M12, 2 populations, T=4"), stubs=["numpy/sciris in atomica.optimization, model, programs, utils -> vsym shims", "model outputs are free symbolic reals (no integration is run)"], timeout_ms=60000, declared_exceptions=_exc, max_paths=500)
+            return run_body(_b, _nm, tier_, seed, functions=_funcs(), bounds=dict(_kw, model="M12, 2 populations, T=4"), stubs=["numpy/sciris in atomica.optimization, model, programs, utils -> vsym shims", "model outputs are free symbolic reals (no integration is run)"], timeout_ms=60000, declared_exceptions=_exc, max_paths=2000)
 
         g.__name__ = nm
         gs.append(g)
